@@ -128,6 +128,7 @@ PTR_ALPHA = [b"/", b"/", b".", b"a", b"a", b"~0", b"~1", b"0", b"-", b"}", b"\xe
 def _len(rng, lo, hi):
     # mostly word scale (8..24), one in five cache-line / SIMD-block scale (25..140)
     r = rng.random()
+    if MINED_LENS and r < 0.15: return rng.choice(MINED_LENS)
     if r < 0.78: return rng.randint(lo, hi)
     if r < 0.92: return rng.randint(hi + 1, 140)
     return rng.randint(250, 340)                # past 256-byte thresholds (stack scratch buffers, bulk paths)
@@ -225,9 +226,22 @@ def _wrap(doc, ptr_hex, kind, rng):
         members = ["%s:#i%d" % (("k%02d" % i).encode().hex(), i) for i in range(25)] + ["77:" + doc]
         return "{" + ",".join(sorted(members)) + "}", (b"/w" + p).hex()
     if kind == "edge_key":                      # a key with an escape whose length sits at a 64/128/256 boundary
-        key = b"a" * rng.choice([61, 62, 63, 64, 65, 66, 126, 127, 128, 129, 253, 254, 255, 256]) + rng.choice([b"/", b"~", b"/~", b"~1"])
+        key = b"a" * rng.choice([61, 62, 63, 64, 65, 66, 126, 127, 128, 129, 253, 254, 255, 256] + [k for k in MINED_LENS if k <= 600]) + rng.choice([b"/", b"~", b"/~", b"~1"])
         enc = key.replace(b"~", b"~0").replace(b"/", b"~1")
         return "{" + key.hex() + ":" + doc + "}", (b"/" + enc + p).hex()
+    if kind == "esc_keys":
+        # several members on the path whose names need escapes, of different (also long) lengths: per-walk state
+        # (scratch buffers, cached decodings) carried from one step to the next shows only on such paths
+        pre = b""
+        for _ in range(rng.choice([2, 2, 3])):
+            n = rng.choice([1, 3, 9, 20, 31, 32, 33, 34, 40, 63, 64, 65, 70, 130] + [k for k in MINED_LENS if k <= 600] * 2)
+            body = bytes(rng.choice(b"abcxyz.-_ ") for _ in range(n))
+            cut = rng.randrange(len(body) + 1)
+            key = body[:cut] + rng.choice([b"/", b"~", b"~1", b"/~0"]) + body[cut:]
+            enc = key.replace(b"~", b"~0").replace(b"/", b"~1")
+            doc = "{" + key.hex() + ":" + doc + "}"
+            pre = b"/" + enc + pre
+        return doc, (pre + p).hex()
     if kind == "long_key":
         key = b"a" * rng.choice([150, 200, 300])
         return "{" + key.hex() + ":" + doc + "}", (b"/" + key + p).hex()
@@ -241,7 +255,7 @@ def tree_variants(line, rng, prop):
         di, pi, vi = TREE_OPS[op]
         backend, doc, ptr = parts[1], parts[di], parts[pi]
         if not ptr.startswith("x"): return out
-        kinds = ["deep_obj", "deep_arr", "wide_arr", "wide_obj", "long_key", "edge_key"]
+        kinds = ["deep_obj", "deep_arr", "wide_arr", "wide_obj", "long_key", "edge_key", "esc_keys", "esc_keys"]
         if rng.random() < 0.15: kinds += ["deeper_arr", "wider_arr"]
         for kind in kinds:
             d2, p2 = _wrap(doc, ptr[1:], kind, rng)
@@ -251,8 +265,10 @@ def tree_variants(line, rng, prop):
         # a long remainder to materialise / to fail on: > 64 tokens behind the original pointer
         q = list(parts); q[pi] = "x" + (pb + b"/a" * rng.choice([64, 65, 70, 129, 130]) + b"/b").hex(); out.append(" ".join(q))
         # three-digit indices (above 255) and a 20-digit overflow in the last position
-        for tok in (b"256", b"299", b"999", b"18446744073709551616"):
-            if rng.random() < 0.5:
+        # … and random 20/21-digit numbers above 2^64 (a hand-rolled overflow check is right on the round probes only)
+        big = [str(rng.randint(2, 9)).encode() + bytes(rng.choice(b"0123456789") for _ in range(rng.choice([19, 19, 20]))) for _ in range(2)]
+        for tok in [b"256", b"299", b"999", b"18446744073709551616"] + big:
+            if rng.random() < 0.5 or tok in big:
                 q = list(parts); q[pi] = "x" + (pb[:pb.rfind(b"/")] + b"/" + tok if b"/" in pb else b"/" + tok).hex(); out.append(" ".join(q))
         # unusual scalar kinds where a boolean stood (C09 keeps to the common domain: floats only)
         if "#t" in line:
@@ -268,7 +284,7 @@ def tree_variants(line, rng, prop):
                 out.append(" ".join(q))
     elif op == "tree_hist" and len(parts) >= 3:
         backend, doc, steps = parts[1], parts[2], parts[3:]
-        hist_kinds = ["deep_obj", "wide_arr", "long_key", "edge_key"] + (["wider_arr"] if rng.random() < 0.2 else [])
+        hist_kinds = ["deep_obj", "wide_arr", "long_key", "edge_key", "esc_keys"] + (["wider_arr"] if rng.random() < 0.2 else [])
         # three-digit indices (above 255) in one step of the history itself
         if steps:
             j = rng.randrange(len(steps)); f = steps[j].split("@")
@@ -345,8 +361,27 @@ def parse_memo_families(lines, rng):
                     out.append(f"{op} {_hex(g)}"); out.append(f"{op} {_hex(b)}")
     return out
 
-def augment(prop, lines, seed, budget=40000):
+MINED_LENS = []      # lengths mined from changed source lines (tools/mine.py), set per run by augment()
+
+def use_mined(mined):
+    """numbers mined from changed source become pad sizes / key lengths / string lengths (±2); mined byte, char and string
+    literals join the word-scale alphabets"""
+    global KS, KS_LONG
+    for n in mined.get("nums", []):
+        if 2 <= n <= 4096:
+            for k in (n - 2, n - 1, n, n + 1, n + 2, 2 * n - 1, 2 * n, 2 * n + 1):
+                if k >= 1 and k not in MINED_LENS: MINED_LENS.append(k)
+    for k in MINED_LENS:
+        if k <= 70 and k not in KS: KS.append(k)
+        elif 70 < k <= 600 and k not in KS_LONG: KS_LONG.append(k)
+    for b in mined.get("strs", []):
+        if b not in WORD_ALPHA: WORD_ALPHA.extend([b, b])
+        enc = b.replace(b"~", b"~0").replace(b"/", b"~1")
+        if enc not in PTR_ALPHA: PTR_ALPHA.extend([enc, enc])
+
+def augment(prop, lines, seed, budget=40000, mined=None):
     """extra lines derived from a deterministic sample of `lines`"""
+    if mined: use_mined(mined)
     rng = random.Random(seed * 1000003 + int(prop[1:]))
     tree = [l for l in lines if l.split(" ", 1)[0] in TREE_OPS or l.startswith("tree_hist ")]
     if tree:
